@@ -185,6 +185,9 @@ pub struct EnvSpec {
     /// Files (relative names) that exist but fail to read with this error.
     #[serde(default)]
     pub unreadable: Vec<(String, IoFault)>,
+    /// Ordinals of `write_bytes` calls (per process) that fail, e.g. disk full during `\dump`.
+    #[serde(default)]
+    pub fs_write_faults: Vec<(u64, IoFault)>,
 }
 
 pub struct VmProc {
@@ -217,6 +220,7 @@ fn attach_env(vm: &mut vm::VM<SimState>, spec: &EnvSpec, cursor: &EnvCursor) {
     }
     *fs.read_faults.borrow_mut() = spec.fs_read_faults.iter().cloned().collect();
     fs.reads.set(cursor.fs_reads);
+    *fs.write_faults.borrow_mut() = spec.fs_write_faults.iter().cloned().collect();
     for (name, f) in &spec.unreadable {
         let mut p = PathBuf::from(SIM_CWD);
         p.push(name);
